@@ -587,4 +587,3 @@ func doRecover(caller *frame) value {
 	}
 	return iface{}
 }
-
